@@ -5,7 +5,7 @@
 #   3. the demonstration fails with the patch and passes without   4. (reported, not required) which of our checks catch it
 set -u
 ID="$1"; NAME="$2"; NEEDS="${3:-}"
-WT="/tmp/wt-$ID"; ROOT="$(cd "$(dirname "$0")/.." && pwd)"; DST="$ROOT/seeded/$NAME"
+WT="${SEED_WT:-/tmp/wt-$ID}"; ROOT="$(cd "$(dirname "$0")/.." && pwd)"; DST="$ROOT/seeded/$NAME"
 [ -f "$WT/demo/patch.diff" ] || { echo "no patch in $WT/demo"; exit 2; }
 mkdir -p "$DST"
 cp "$WT/demo/patch.diff" "$DST/patch.diff"; cp "$WT/demo/demo.c" "$DST/demo.c"
@@ -15,7 +15,7 @@ cat > "$DST/run.sh" <<'RUN'
 # Builds the demonstration against a tree of ft/ufw (UFW_SRC, default /repo) and runs it: exit 0 = property held.
 HERE="$(cd "$(dirname "$0")" && pwd)"
 SRC="${UFW_SRC:-/repo}"; CFG="${UFW_CFG:-/verif/build/main/cfg/include}"; BIN="${DEMO_BIN:-/var/tmp/ufw-seed-demo.$$}"
-LIB="allocator crc-16-arc endpoints/buffer endpoints/continuable-sink endpoints/core endpoints/instrumentable endpoints/trivial length-prefix byte-buffer persistent-storage registers/core register-protocol rfc1055 ring-buffer-iter variable-length-integer octet-ring"
+LIB="allocator crc-16-arc endpoints/buffer endpoints/continuable-sink endpoints/core endpoints/instrumentable endpoints/trivial length-prefix byte-buffer persistent-storage registers/core registers/utilities hexdump register-protocol rfc1055 ring-buffer-iter variable-length-integer octet-ring"
 FILES=""; for f in $LIB; do FILES="$FILES $SRC/src/$f.c"; done
 ${CC:-gcc} -std=gnu99 -O1 -w -I"$SRC/include" -I"$CFG" -DSYSTEM_ENDIANNESS_LITTLE -DUFW_USE_BUILTIN_SWAP -D_DEFAULT_SOURCE -o "$BIN" "$HERE/demo.c" $FILES -lm || exit 3
 "$BIN"; rc=$?; rm -f "$BIN"; exit $rc
